@@ -118,7 +118,9 @@ def run(chk):
             lines = [HELPERS, "let __o = []; let f = pcap_open(%s);" % lit(inp)] + ops_src(ops)
             # write everything back (fresh handle) and re-read it
             lines += ["let g = pcap_open(%s); let all = pcap_read_all(g); let o = pcap_open(%s, \"w\");" % (lit(inp), lit(outp)),
-                      "let i = 0; while i < len(all) { push(__o, pcap_write(o, all[i])); i = i + 1; }"]
+                      # every other packet has its link layer looked at (nothing assigned) before it is written
+                      "let i = 0; while i < len(all) { let q = all[i]; if i % 2 == 1 { let t = q.eth; if !is_error(t) { t.type; t.src; } } "
+                      "push(__o, pcap_write(o, q)); i = i + 1; }"]
             cid = "w%d" % i
             cases.append(Case(cid, "\n".join(lines), {"globals": "__o", "steps": 3000000}))
             meta[cid] = ("well-formed", recs, ops, hdr, outp, data)
